@@ -24,7 +24,7 @@ Definition gres (g : gobs) : N := g.1.1.2.
 Definition gaz (g : gobs) : N := g.1.2.
 
 Definition st_code (s : ostat) : N :=
-  match s with Ok => 0 | Unauth => 1 | Valid => 2 | Multi => 3 | ResFail => 4 | Skip => 5 | Panic => 6 end.
+  match s with Ok => 0 | Unauth => 1 | Valid => 2 | Multi => 3 | ResFail => 4 | Skip => 5 | Panic => 6 | Config => 7 end.
 
 (* ---- the model's observations ---- *)
 Fixpoint insN (x : N) (l : list N) : list N :=
